@@ -228,7 +228,18 @@ func replayPubCase(c *pubCase, idx int) (diff string) {
 			got = append(got, codes[r.Code])
 		}
 		where := fmt.Sprintf("call %d", ci+1)
-		if fmt.Sprint(got) != fmt.Sprint(append([]string{}, call.Results...)) {
+		norm := func(l []string) []string {
+			o := append([]string{}, l...)
+			if call.Fail.Kind != "none" { // "reports not-found or error for the rest": either, when an API request failed
+				for i := range o {
+					if o[i] == "notfound" {
+						o[i] = "error"
+					}
+				}
+			}
+			return o
+		}
+		if fmt.Sprint(norm(got)) != fmt.Sprint(norm(call.Results)) {
 			return fmt.Sprintf("%s: results: spec %v, code %v", where, call.Results, got)
 		}
 		f.mu.Lock()
